@@ -102,6 +102,65 @@ def _cond_slice_clamped(repo: Repo) -> str | None:
     return None
 
 
+def _cond_cycle_nonneg(repo: Repo) -> str | None:
+    """``RenderContext.cycle`` returns a value of the 'cycles' namespace: the setdefault default
+    is a non-negative constant, every store is ``<e> % (length or <positive const>)`` and every
+    caller passes ``len(...)`` as the length; nothing else writes tag_namespace['cycles']."""
+    cy = repo.own_method("liquid.context.RenderContext", "cycle")
+    params = cy.params()
+    if len(params) < 3:
+        return "RenderContext.cycle no longer takes (key, length)"
+    length = params[2]
+    ns = None
+    for n in walk_no_nested(cy.node):
+        tgt, val = (n.targets[0], n.value) if isinstance(n, ast.Assign) and len(n.targets) == 1 else (n.target, n.value) if isinstance(n, ast.AnnAssign) else (None, None)
+        if isinstance(tgt, ast.Name) and val is not None and text(val) == "self.tag_namespace['cycles']":
+            ns = tgt.id
+    if ns is None:
+        return "RenderContext.cycle no longer reads self.tag_namespace['cycles'] into a local"
+    rets = [n.value for n in walk_no_nested(cy.node) if isinstance(n, ast.Return)]
+    sa_ = {}
+    for n in walk_no_nested(cy.node):
+        if isinstance(n, ast.Assign) and len(n.targets) == 1 and isinstance(n.targets[0], ast.Name):
+            sa_.setdefault(n.targets[0].id, []).append(n.value)
+    for r in rets:
+        vals = sa_.get(r.id, []) if isinstance(r, ast.Name) else [r]
+        if not vals:
+            return f"cycle returns `{text(r)}` which is not a local bound in the function"
+        for v in vals:
+            ok = isinstance(v, ast.Call) and callee_name(v) == "setdefault" and isinstance(v.func, ast.Attribute) and is_name(v.func.value, ns) and len(v.args) == 2 and isinstance(v.args[1], ast.Constant) and isinstance(v.args[1].value, int) and v.args[1].value >= 0
+            if not ok:
+                return f"cycle returns `{text(v)[:60]}`, not `{ns}.setdefault(key, <const >= 0>)`"
+    for n in walk_no_nested(cy.node):
+        if isinstance(n, (ast.Assign, ast.AugAssign)):
+            tg = n.targets if isinstance(n, ast.Assign) else [n.target]
+            for t in tg:
+                if isinstance(t, ast.Subscript) and is_name(t.value, ns):
+                    v = n.value
+                    ok = (
+                        isinstance(n, ast.Assign)
+                        and isinstance(v, ast.BinOp)
+                        and isinstance(v.op, ast.Mod)
+                        and (
+                            (isinstance(v.right, ast.BoolOp) and isinstance(v.right.op, ast.Or) and len(v.right.values) == 2 and is_name(v.right.values[0], length) and isinstance(v.right.values[1], ast.Constant) and isinstance(v.right.values[1].value, int) and v.right.values[1].value > 0)
+                            or (isinstance(v.right, ast.Constant) and isinstance(v.right.value, int) and v.right.value > 0)
+                        )
+                    )
+                    if not ok:
+                        return f"cycle stores `{text(v)[:60]}` — not `<e> % ({length} or <positive const>)`, so a negative index could be returned later"
+    for f in repo.all_functions():
+        for c in calls(f.node):
+            if callee_name(c) == "cycle" and isinstance(c.func, ast.Attribute) and text(c.func.value) in ("context", "self", "ctx"):
+                b = c.args[1] if len(c.args) > 1 else next((k.value for k in c.keywords if k.arg == length), None)
+                if not (isinstance(b, ast.Call) and is_name(b.func, "len")):
+                    return f"{f.qual} calls cycle() with length `{text(b) if b is not None else '?'}` which is not a len(...)"
+        if f.qual != cy.qual:
+            for n in ast.walk(f.node):
+                if isinstance(n, ast.Subscript) and isinstance(n.ctx, (ast.Store, ast.Del)) and "tag_namespace['cycles']" in text(n.value):
+                    return f"{f.qual} writes tag_namespace['cycles'] outside RenderContext.cycle"
+    return None
+
+
 def _cond_macros_namespace(repo: Repo) -> str | None:
     """``tag_namespace['macros']`` is only ever written by MacroNode with a Macro instance."""
     for f in repo.all_functions():
@@ -165,8 +224,8 @@ REVIEWED = {
     "liquid.builtin.filters.string.split|str.split(sep):None if sep == ' ' else sep|ValueError": ("an empty or nil separator returned `list(val)` above; soft_str of anything else is non-empty", None),
     "liquid.builtin.tags.case_tag.MultiExpressionBlockNode.render_to_output|attr .count:matches|AttributeError": ("self.expression is the _AnyExpression built by the case tag; its evaluate returns list[bool]", None),
     "liquid.builtin.tags.case_tag.MultiExpressionBlockNode.render_to_output_async|attr .count:matches|AttributeError": ("as the sync twin", None),
-    "liquid.builtin.tags.cycle_tag.CycleNode.render_to_output|x[k]:args[index]|IndexError": ("guarded by `if index >= len(args): return 0`; context.cycle returns a non-negative index", None),
-    "liquid.builtin.tags.cycle_tag.CycleNode.render_to_output_async|x[k]:args[index]|IndexError": ("as the sync twin", None),
+    "liquid.builtin.tags.cycle_tag.CycleNode.render_to_output|x[k<len]:args[index]|IndexError": ("the upper bound is machine-checked (primitive `x[k<len]`: a dominating `if index >= len(args): return`); lower bound: context.cycle returns a stored value that starts at 0 and is only replaced by `(idx + 1) % (length or 1)`, never negative", _cond_cycle_nonneg),
+    "liquid.builtin.tags.cycle_tag.CycleNode.render_to_output_async|x[k<len]:args[index]|IndexError": ("as the sync twin", _cond_cycle_nonneg),
     "liquid.context.RenderContext.get|next():it|StopIteration": ("a parsed Path always has at least one segment", None),
     "liquid.context.RenderContext.get_async|next():it|StopIteration": ("a parsed Path always has at least one segment", None),
     "liquid.context._segments_str|next():it|StopIteration": ("called with the non-empty segment list of a Path", None),
